@@ -24,14 +24,18 @@ Inductive event :=
 Global Instance event_eq_dec : EqDecision event.
 Proof. solve_decision. Defined.
 
-(** one row of a notification: the state the row is to take ([None] = deleted) *)
-Definition rowchange := (sym * sym * option row)%type.
+(** one row of a notification: whether it is announced as an insert (initial /
+    insert / a v1 update without old), and the state the row is to take
+    ([None] = deleted) *)
+Definition rowchange := (sym * sym * bool * option row)%type.
 
 Definition apply_row (c : tcache) (ch : rowchange) : option (tcache * list event) :=
-  let '(t, u, target) := ch in
+  let '(t, u, ins, target) := ch in
   match tc_get c t !! u, target with
   | None, Some n => Some (tc_set c t u (Some n), [EvAdd t u n])
-  | Some o, Some n => if bool_decide (o = n) then Some (c, []) else Some (tc_set c t u (Some n), [EvUpd t u o n])
+  | Some o, Some n =>
+      if ins then None       (* Create: the row already exists *)
+      else if bool_decide (o = n) then Some (c, []) else Some (tc_set c t u (Some n), [EvUpd t u o n])
   | Some o, None => Some (tc_set c t u None, [EvDel t u o])
   | None, None => None      (* ErrCacheInconsistent *)
   end.
